@@ -36,7 +36,7 @@ import (
 // worker (a goroutine inside WorkQueue.process) is blocked too: in Get (sync.Cond.Wait) or in
 // the harness callback (select / chan receive).
 func settle() bool {
-	buf := make([]byte, 1<<17)
+	buf := make([]byte, 1<<20)
 	for i := 0; i < 300000; i++ {
 		n := runtime.Stack(buf, true)
 		loops, ok := 0, true
@@ -113,6 +113,7 @@ func runWrapper(in qinput) *qrun {
 		case <-done:
 		case <-time.After(5 * time.Second):
 		}
+		r.release(func() {})
 	}()
 
 	di, fi, ti := 0, 0, 0
